@@ -95,7 +95,7 @@ func (codecV1) UnmarshalPacket(header, body []byte, decrypt cipher.BlockCryptor,
 	if crc := head.CalcChecksum(body); crc != checksum {
 		return fmt.Errorf("packet %v checksum mismatch %x != %x", pkt.Command(), checksum, crc)
 	}
-	if len(body) > 0 {
+	if len(body) > 0 || pkt.Flag()&(fatchoy.PFlagCompressed|fatchoy.PFlagEncrypted) != 0 {
 		return unmarshalPacketBody(body, decrypt, pkt)
 	}
 	return nil
